@@ -7,6 +7,7 @@
   TLC  <Spec>_paths   : all behaviours of the bounded model, replayed on the real code (spec => code)
 """
 import json
+import time
 import os
 import re
 
@@ -19,7 +20,8 @@ EVENT_KEYS = ("p", "a", "o", "old", "new", "ok", "spur", "obs", "done")
 class ConcSpec:
     def __init__(self, name, scenario, grid, inv_props, primary, mc_cfgs=(), paths_cfg=None, trace_cfg=None,
                  dfs_max=20000, rand_execs=0, preempt=None, scen_keys=None, trace_workers=1, gen_module=None,
-                 rand_grid=None, paths_max=4000, trace_timeout=900, tail_execs=40, replay_logical=(), replay_skip_none=False, tail_boost=(), tail_boost_execs=400, tail_boost_preempt=1):
+                 rand_grid=None, paths_max=4000, trace_timeout=900, tail_execs=40, replay_logical=(), replay_skip_none=False, tail_boost=(), tail_boost_execs=400, tail_boost_preempt=1,
+                 drift_boost_execs=1500):
         self.name = name
         self.scenario = scenario
         self.grid = grid
@@ -40,6 +42,9 @@ class ConcSpec:
         self.tail_boost = list(tail_boost)  # grid entries whose interesting window is a plain-code tail: more tail-split runs
         self.tail_boost_execs = tail_boost_execs
         self.tail_boost_preempt = tail_boost_preempt
+        # when recorded executions drift from the specification (the code was restructured), the specification's own
+        # invariants are silent from the drift on: the exploration is deepened instead (judged by the monitors only)
+        self.drift_boost_execs = drift_boost_execs
         self.replay_skip_none = replay_skip_none  # "none" events (plain code before the first operation) consume no decision
         self.replay_logical = set(replay_logical)  # object names the specification uses logically (bound at first use)
 
@@ -144,6 +149,45 @@ def collect_traces(rep, spec, exe, tier, seed):
     return execs
 
 
+def collect_drift_boost(rep, spec, exe, seed):
+    """Recorded executions no longer follow the specification: from the point of drift on only the abstract monitors judge
+    them, so many more schedules are explored (random, with and without tail splits, larger configurations first)."""
+    t0 = time.time()
+    budget = 300.0
+    configs = list(spec.rand_grid or []) + list(spec.tail_boost) + list(spec.grid)
+    seen, uniq = set(), []
+    for p in configs:
+        k = params_key(p)
+        if k not in seen:
+            seen.add(k)
+            uniq.append(p)
+    execs = []
+    n_runs = 0
+    for i, params in enumerate(uniq[:10]):
+        for split in (0, 2):
+            if time.time() - t0 > budget:
+                break
+            lines, summary, crashed, err = core.run_vrt(exe, spec.scenario, params, mode="rand", max_execs=spec.drift_boost_execs,
+                                                        seed=seed * 104729 + 2 * i + (1 if split else 0), tailsplit=split,
+                                                        timeout=200)
+            ex = core.split_execs(lines)
+            if crashed:
+                crash = lines[-1] if lines and lines[-1].get("e") == "crash" else {}
+                rep.violation("crash/%s/%s" % (spec.scenario, params_key(params)),
+                              "the harness process died while executing a random schedule of scenario %s %s (exploration "
+                              "deepened after the executions drifted from the specification)" % (spec.scenario, params_key(params)),
+                              {"scenario": spec.scenario, "params": params, "choices": crash.get("choices"),
+                               "sched": crash.get("sched"), "tailsplit": split})
+                ex = [e for e in ex if e and e[-1].get("e") == "end"]
+            for e in ex:
+                e[0]["boost"] = True
+            execs.extend(ex)
+            n_runs += len(ex)
+    rep.notes.append("%s: the recorded executions drift from the specification; %d more random schedules explored and judged by "
+                     "the abstract monitors only" % (spec.scenario, n_runs))
+    return execs
+
+
 def _line_of_state(state_text):
     m = re.search(r"/\\ l = (\d+)", state_text or "")
     return int(m.group(1)) if m else None
@@ -220,7 +264,7 @@ def _validate_chunk(spec, wd, execs, want, tag, abs_only=False):
                         first.setdefault(idx, ln)
                     for idx, ln in sorted(first.items()):
                         ex = remaining[idx]
-                        if ex[0].get("tailsplit") or len(col.drift) >= 5:
+                        if ex[0].get("tailsplit") or ex[0].get("boost") or len(col.drift) >= 5:
                             continue  # tail-split executions are expected to leave the slice structure
                         col.drift.append("%s %s: line %d of the execution has no matching action in %s: %s" % (
                             spec.scenario, params_key(ex[0].get("params", {})), ln - starts[idx] + 1, spec.name,
@@ -281,7 +325,7 @@ def validate_traces(rep, spec, wd, execs, want, tag="trace"):
     for is_tail in (False, True):
         cur, n = [], 0
         for ex in execs:
-            if bool(ex[0].get("tailsplit")) != is_tail:
+            if bool(ex[0].get("tailsplit") or ex[0].get("boost")) != is_tail:
                 continue
             cur.append(ex)
             n += len(ex)
@@ -442,8 +486,14 @@ def run_conc(rep, spec, tier, seed, want):
     rep.executions += len(execs)
     if not execs:
         raise MachineryError("the harness produced no complete execution for scenario %s" % spec.scenario)
+    drift0 = len(rep.drift)
     sites, n_ok = validate_traces(rep, spec, wd, execs, want)
     rep.traces += n_ok
+    if len(rep.drift) > drift0 and spec.drift_boost_execs > 0:
+        more = collect_drift_boost(rep, spec, exe, seed)
+        rep.executions += len(more)
+        _, n_more = validate_traces(rep, spec, wd, more, want, tag="boost")
+        rep.traces += n_more
     if execs and len(rep.samples) < 6:
         ex = execs[len(execs) // 2]
         rep.samples.append({"kind": "recorded execution validated by TLC", "scenario": spec.scenario,
